@@ -895,13 +895,11 @@ func (fr *frame) makeInterface(x *ssa.MakeInterface, st *State) *Val {
 	}
 	bn := "box!" + smtName(string(s))
 	un := "unbox!" + smtName(string(s))
-	fr.vc.declareFun(bn, []Sort{s}, SInt)
-	fr.vc.declareFun(un, []Sort{SInt}, s)
+	fr.w.boxSorts[s] = true
 	b := App(bn, SInt, content)
 	fr.vc.assume(True, Eq(App(un, s, b), content))
 	if v.T.Sort == SStr {
 		// keep the concrete string retrievable
-		fr.vc.declareFun("unboxstr", []Sort{SInt}, SStr)
 		fr.vc.assume(True, Eq(App("unboxstr", SStr, b), v.T))
 	}
 	return &Val{T: MkIface(tag, b), Ty: x.Type()}
@@ -946,13 +944,10 @@ func (fr *frame) unbox(iface *Term, t types.Type, at ssa.Instruction) *Val {
 		fr.fail(at.Pos(), "unboxing compound type %s", t)
 	}
 	if s == SStr {
-		fr.vc.declareFun("unboxstr", []Sort{SInt}, SStr)
 		return &Val{T: App("unboxstr", SStr, IfRef(iface)), Ty: t}
 	}
 	un := "unbox!" + smtName(string(s))
-	bn := "box!" + smtName(string(s))
-	fr.vc.declareFun(bn, []Sort{s}, SInt)
-	fr.vc.declareFun(un, []Sort{SInt}, s)
+	fr.w.boxSorts[s] = true
 	return &Val{T: App(un, s, IfRef(iface)), Ty: t}
 }
 
